@@ -50,7 +50,7 @@ def classify_exception(e):
     return 'library' if _is_library_frame(last) else 'harness'
 
 
-def run_events(events, cfg, known, upto=None, collect=None):
+def run_events(events, cfg, known, upto=None, collect=None, owners=None):
     """execute an event list in a fresh world.  Returns (violation-or-None,
     world).  Library exceptions escaping an event become violations of the
     oracle '<kind>.<name>.raised'."""
@@ -67,6 +67,7 @@ def run_events(events, cfg, known, upto=None, collect=None):
             except Violation as v:
                 viol = {'oracle': v.oracle, 'detail': v.detail, 'event': i,
                         'finding': v.finding}
+                viol = _owned_followup(w, viol, owners)
                 break
             except Exception as e:  # noqa
                 if classify_exception(e) == 'library':
@@ -75,6 +76,7 @@ def run_events(events, cfg, known, upto=None, collect=None):
                             'detail': 'unexpected %r\n%s' % (
                                 e, ''.join(traceback.format_exception(e))[-1500:]),
                             'event': i, 'finding': None}
+                    viol = _owned_followup(w, viol, owners)
                     break
                 raise
     finally:
@@ -85,7 +87,26 @@ def run_events(events, cfg, known, upto=None, collect=None):
     return viol, w, dig
 
 
-def run_seed(seed, profile, tier, known, scratch):
+def _owned_followup(w, viol, owners):
+    """a failed oracle that the checked property does not own stops the run;
+    before giving up, evaluate the always-on invariants once more: if one the
+    property does own fails as well, that is the violation to report"""
+    from .world import Violation
+    if owners is None or viol is None or owns(owners, viol['oracle']):
+        return viol
+    try:
+        w.check_all()
+    except Violation as v2:
+        if owns(owners, v2.oracle):
+            return {'oracle': v2.oracle, 'detail': v2.detail + ' [after %s]'
+                    % viol['oracle'], 'event': viol['event'],
+                    'finding': v2.finding}
+    except Exception:  # noqa
+        pass
+    return viol
+
+
+def run_seed(seed, profile, tier, known, scratch, owners=None):
     """generate-and-execute one run.  Returns a result dict."""
     from .world import World, Violation, reset_process_state
     from .gen import Gen, draw_cfg
@@ -107,6 +128,7 @@ def run_seed(seed, profile, tier, known, scratch):
             except Violation as v:
                 viol = {'oracle': v.oracle, 'detail': v.detail,
                         'event': len(events) - 1, 'finding': v.finding}
+                viol = _owned_followup(w, viol, owners)
                 break
             except Exception as e:  # noqa
                 if classify_exception(e) == 'library':
@@ -115,6 +137,7 @@ def run_seed(seed, profile, tier, known, scratch):
                             'detail': 'unexpected %r\n%s' % (
                                 e, ''.join(traceback.format_exception(e))[-1500:]),
                             'event': len(events) - 1, 'finding': None}
+                    viol = _owned_followup(w, viol, owners)
                     break
                 raise HarnessError('seed %d event %d %r: %s' % (
                     seed, len(events) - 1, ev,
@@ -133,7 +156,8 @@ def same_failure(a, b):
     return a is not None and b is not None and a['oracle'] == b['oracle']
 
 
-def shrink(events, cfg, known, viol, budget_s=30.0, max_runs=300):
+def shrink(events, cfg, known, viol, budget_s=30.0, max_runs=300,
+           owners=None):
     """ddmin over the event list, then per-event simplification; keeps a
     candidate only if the same oracle still fails."""
     t0 = time.time()
@@ -144,7 +168,7 @@ def shrink(events, cfg, known, viol, budget_s=30.0, max_runs=300):
             return None
         runs[0] += 1
         try:
-            v, _, _ = run_events(cand, cfg, known)
+            v, _, _ = run_events(cand, cfg, known, owners=owners)
         except Exception:  # noqa
             return None
         return v if same_failure(v, viol) else None
@@ -251,7 +275,7 @@ def worker(args):
                 break
             faulthandler.dump_traceback_later(120, exit=True)
             try:
-                res = run_seed(seed, profile, tier, known, scratch)
+                res = run_seed(seed, profile, tier, known, scratch, owners)
             except HarnessError as e:
                 agg['harness_errors'].append(str(e)[-3000:])
                 continue
@@ -285,12 +309,14 @@ def worker(args):
             cfg = res['cfg']
             faulthandler.dump_traceback_later(180, exit=True)
             try:
-                small, sv, nruns = shrink(res['events'], cfg, known, v)
+                small, sv, nruns = shrink(res['events'], cfg, known, v,
+                                          owners=owners)
                 # verify determinism of the minimised list in this process
-                v2, _, dig = run_events(small, cfg, known)
+                v2, _, dig = run_events(small, cfg, known, owners=owners)
                 if not same_failure(v2, sv):
                     small, sv = res['events'][:v['event'] + 1], v
-                    v2, _, dig = run_events(small, cfg, known)
+                    v2, _, dig = run_events(small, cfg, known,
+                                            owners=owners)
             finally:
                 faulthandler.cancel_dump_traceback_later()
             path = write_replay(prop, seed, small, cfg, sv, dig,
